@@ -69,7 +69,13 @@ SlackFor(J, dtype) == IF dtype = "float32" THEN Slack32 ELSE Slack(J)
 \* Call paths: the function, the class wrapper (Tucker / TensorTrain / TensorTrainMatrix / TensorRing
 \* .fit_transform), and the class wrapper fitted a second time after a fit on another tensor (an estimator
 \* carries no state from one fit to the next: the second result is judged like a fresh call).
-RankSpecs == {"list", "tuple", "npint", "int", "none", "same", "float"}
+RankSpecs == {"list", "tuple", "npint", "ndarray", "int", "none", "same", "float"}
+\* spelling of tensor_ring's `mode` ("index of the first factor to compute"): a Python int, a NumPy integer
+\* (what np.argmax(shape) returns), or the negative index of the same mode.
+ModeSpecs == {"int", "np64", "np32", "npintp", "neg"}
+\* Forms the documentation does not list (rank as an ndarray, a negative mode): refusing them with a
+\* ValueError / TypeError is fine; if the call is accepted it is judged like the documented spelling.
+Lenient(rs, ms) == rs = "ndarray" \/ ms = "neg"
 Computed(rs) == rs \in {"same", "float"}
 Vias == {"function", "class", "refit"}
 Fractions == {25, 50, 100}        \* float rank specifications, in percent
